@@ -110,8 +110,7 @@ def tryParseDecimal (s : List Char) (tryInt tryFloat : Bool) : Option NumRes :=
   | none, some f => some f
   | none, none => none
 
-/-- `try_parse_hex_integer`; the radix-16 float fallback on `u64` overflow is modelled for
-mantissa and `.` fraction (an exponent marker `^` after ≥ 17 hex digits is outside the model). -/
+/-- `try_parse_hex_integer`; on `u64` overflow the run of hex digits is converted to the nearest binary64 -/
 def tryParseHexInteger (s : List Char) : Option NumRes :=
   let ds := s.takeWhile isAsciiHexDigit
   if ds.isEmpty then none
@@ -119,11 +118,8 @@ def tryParseHexInteger (s : List Char) : Option NumRes :=
     let v := digitsVal 16 hexDigitVal ds
     if v ≤ u64Max then some ⟨.IntegerLiteral, .int v, ds.length, none⟩
     else
-      let r := s.drop ds.length
-      let (fp, flen) := match r with
-        | '.' :: t => let f := t.takeWhile isAsciiHexDigit; (f, 1 + f.length)
-        | _ => ([], 0)
-      let bits := ratToF64 (digitsVal 16 hexDigitVal (ds ++ fp)) (16 ^ fp.length)
-      some ⟨.FloatLiteral, .float bits, ds.length + flen, some .InvalidNumericLiteral⟩
+      -- since the `fix:` only the run of hex digits is re-parsed as a radix-16 float
+      let bits := ratToF64 v 1
+      some ⟨.FloatLiteral, .float bits, ds.length, some .InvalidNumericLiteral⟩
 
 end SasLexer
